@@ -573,3 +573,371 @@ Proof.
 Qed.
 
 End Parsed.
+
+(* ------------------------------------------------------------------ *)
+(* E. invariant of the reader's state machine                            *)
+
+Lemma kind_by_kinds arms l k : kind_by arms l = Some k -> In k (arms_kinds arms).
+Proof.
+  unfold kind_by. destruct (find _ arms) as [p|] eqn:E; [|discriminate]. intros H. injection H as <-.
+  apply find_some in E as [Hin _]. unfold arms_kinds. apply in_flat_map. exists p. split; [exact Hin|].
+  unfold arm_kind, arm_kinds. destruct (snd p) as [k|alts d]; [now left|].
+  destruct (find _ alts) as [q|] eqn:E2; [|now left]. right. apply find_some in E2 as [Hq _]. now apply in_map.
+Qed.
+
+Section Machine.
+Variable T : list layout.
+Variable Q : bytes -> Prop.              (* what is known of every line of the input *)
+Variable G : recordR -> bool.            (* what follows for the record Parse makes of such a line *)
+Hypothesis HG : forall k l x, Q l -> rune_count l = 94 -> read_rec T k l = Some x -> G x = true.
+Hypothesis Hkinds : reader_kinds_ok T = true.
+
+Definition gd (t : N) (x : recordR) : bool := rec_is T t x && G x.
+Definition entry_g (e : entryR) : bool := gd T6 (en_rec e) && forallb (gd T7) (en_addenda e).
+Definition batch_g (b : batchR) : bool :=
+  gd T5 (bt_hdr b) && forallb entry_g (bt_entries b) && gd T8 (bt_ctl b) && mem_str (r_kind (bt_ctl b)) batch_ctl_kinds.
+Definition ctx_g (c : ctx) : bool := gd T5 (fst c) && forallb entry_g (snd c).
+Definition fctl_g (c : recordR) : bool := gd T9 c && mem_str (r_kind c) file_ctl_kinds.
+Definition file_g (f : fileR) : bool :=
+  gd T1 (fl_hdr f) && forallb batch_g (fl_batches f) && forallb batch_g (fl_iat f) && fctl_g (fl_ctl f).
+
+Definition optb {A} (p : A -> bool) (o : option A) : bool := match o with Some x => p x | None => true end.
+
+Record sinv (s : dstate) : Prop := mkSinv {
+  s_hdr : optb (gd T1) (d_hdr s) = true;
+  s_std : forallb batch_g (d_std s) = true;
+  s_iat : forallb batch_g (d_iat s) = true;
+  s_cur : optb ctx_g (d_cur s) = true;
+  s_icur : optb ctx_g (d_icur s) = true;
+  s_ctl : optb fctl_g (d_ctl s) = true;
+  s_actl : optb fctl_g (d_actl s) = true }.
+
+Lemma sinv_init : sinv d_init.
+Proof. constructor; reflexivity. Qed.
+
+Lemma read_rec_kind k l x : read_rec T k l = Some x -> r_kind x = k.
+Proof. unfold read_rec. destruct (layout_of T k); [|discriminate]. intros H. now injection H as <-. Qed.
+
+Lemma read_rec_gd t k l x : Q l -> rune_count l = 94 -> kind_is T t k = true -> read_rec T k l = Some x -> gd t x = true.
+Proof.
+  intros Hq H94 Hk Hr. unfold gd. rewrite (HG k l x Hq H94 Hr), andb_true_r.
+  unfold kind_is, rec_is in *. cbn [r_kind] in Hk. now rewrite (read_rec_kind _ _ _ Hr).
+Qed.
+
+Record fl_ok (fv : flavor) : Prop := mkFlOk {
+  fo_entry : kind_is T T6 (fv_entry fv) = true;
+  fo_addenda : forall l k, fv_addenda fv l = Some k -> kind_is T T7 k = true;
+  fo_ctl : kind_is T T8 (fv_ctl fv) = true;
+  fo_mem : mem_str (fv_ctl fv) batch_ctl_kinds = true }.
+
+Lemma kinds :
+  kind_is T T1 "FileHeader" = true /\ kind_is T T5 "BatchHeader" = true /\ kind_is T T5 "IATBatchHeader" = true
+  /\ kind_is T T6 "EntryDetail" = true /\ kind_is T T6 "ADVEntryDetail" = true /\ kind_is T T6 "IATEntryDetail" = true
+  /\ forallb (kind_is T T7) (arms_kinds std_arms) = true /\ kind_is T T7 adv_addenda = true
+  /\ forallb (kind_is T T7) (arms_kinds iat_arms) = true
+  /\ kind_is T T8 "BatchControl" = true /\ kind_is T T8 "ADVBatchControl" = true
+  /\ kind_is T T9 "FileControl" = true /\ kind_is T T9 "ADVFileControl" = true
+  /\ mem_str "BatchControl" batch_ctl_kinds = true /\ mem_str "ADVBatchControl" batch_ctl_kinds = true
+  /\ mem_str "FileControl" file_ctl_kinds = true /\ mem_str "ADVFileControl" file_ctl_kinds = true.
+Proof.
+  pose proof Hkinds as K. unfold reader_kinds_ok in K. rewrite !andb_true_iff in K. decompose [and] K. repeat split; assumption.
+Qed.
+
+Lemma std_fl_ok : fl_ok std_fl.
+Proof.
+  destruct kinds as (KFH & KBH & KIBH & KED & KADVED & KIATED & Kstd & Kadv & Kiat & KBC & KABC & KFC & KAFC & M1 & M2 & M3 & M4).
+  constructor; cbn [std_fl fv_entry fv_addenda fv_ctl]; auto.
+  intros l k Hk. apply kind_by_kinds in Hk. rewrite forallb_forall in Kstd. now apply Kstd.
+Qed.
+Lemma adv_fl_ok : fl_ok adv_fl.
+Proof.
+  destruct kinds as (KFH & KBH & KIBH & KED & KADVED & KIATED & Kstd & Kadv & Kiat & KBC & KABC & KFC & KAFC & M1 & M2 & M3 & M4).
+  constructor; cbn [adv_fl fv_entry fv_addenda fv_ctl]; auto.
+  intros l k Hk. now injection Hk as <-.
+Qed.
+Lemma iat_fl_ok : fl_ok iat_fl.
+Proof.
+  destruct kinds as (KFH & KBH & KIBH & KED & KADVED & KIATED & Kstd & Kadv & Kiat & KBC & KABC & KFC & KAFC & M1 & M2 & M3 & M4).
+  constructor; cbn [iat_fl fv_entry fv_addenda fv_ctl]; auto.
+  intros l k Hk. apply kind_by_kinds in Hk. rewrite forallb_forall in Kiat. now apply Kiat.
+Qed.
+Lemma cur_fl_ok h : fl_ok (cur_fl h).
+Proof. unfold cur_fl. destruct (is_adv h); [apply adv_fl_ok|apply std_fl_ok]. Qed.
+
+Lemma attach_gd slots a l : gd T7 a = true -> forallb (gd T7) l = true -> forallb (gd T7) (attach slots a l) = true.
+Proof.
+  intros Ha. induction l as [|b l IH]; intros Hl; [cbn; now rewrite Ha|].
+  cbn [forallb] in Hl. apply andb_prop in Hl as [Hb Hl]. cbn [attach].
+  destruct (rank slots (r_kind b) <? rank slots (r_kind a)).
+  - cbn [forallb]. now rewrite Hb, IH.
+  - destruct (rank slots (r_kind b) =? rank slots (r_kind a)).
+    + destruct (multi slots (r_kind a)); cbn [forallb]; [now rewrite Hb, IH|now rewrite Ha, Hl].
+    + cbn [forallb]. now rewrite Ha, Hb, Hl.
+Qed.
+
+Section Line.
+Variable l : bytes.
+Hypothesis Hq : Q l.
+Hypothesis H94 : rune_count l = 94.
+
+Lemma ctx_entry_g fv c c' : fl_ok fv -> ctx_g c = true -> ctx_entry T fv c l = Some c' -> ctx_g c' = true.
+Proof.
+  intros F Hc. unfold ctx_entry. destruct (read_rec T (fv_entry fv) l) as [e|] eqn:E; [|discriminate].
+  intros H. injection H as <-. unfold ctx_g in *. apply andb_prop in Hc as [H1 H2]. cbn [fst snd forallb].
+  unfold entry_g at 1. cbn [en_rec en_addenda forallb]. now rewrite H1, H2, (read_rec_gd T6 _ _ _ Hq H94 (fo_entry _ F) E).
+Qed.
+
+Lemma ctx_addenda_g fv c c' : fl_ok fv -> ctx_g c = true -> ctx_addenda T fv c l = Some c' -> ctx_g c' = true.
+Proof.
+  intros F Hc. unfold ctx_addenda. destruct (snd c) as [|e rest] eqn:Es; [discriminate|].
+  destruct (indicator1 (en_rec e)); [|discriminate].
+  destruct (fv_addenda fv l) as [k|] eqn:Ek.
+  - destruct (read_rec T k l) as [a|] eqn:E; [|discriminate]. intros H. injection H as <-.
+    unfold ctx_g in *. rewrite Es in Hc. cbn [fst snd forallb] in *.
+    apply andb_prop in Hc as [H1 H2]. apply andb_prop in H2 as [H2 H3]. unfold entry_g in H2. apply andb_prop in H2 as [H4 H5].
+    unfold entry_g at 1. cbn [en_rec en_addenda].
+    rewrite H1, H4, H3, (attach_gd _ _ _ (read_rec_gd T7 _ _ _ Hq H94 (fo_addenda _ F l k Ek) E) H5). reflexivity.
+  - intros H. now injection H as <-.
+Qed.
+
+Lemma ctx_close_g fv c b : fl_ok fv -> ctx_g c = true -> ctx_close T fv c l = Some b -> batch_g b = true /\ bt_hdr b = fst c.
+Proof.
+  intros F Hc. unfold ctx_close. destruct (read_rec T (fv_ctl fv) l) as [ctl|] eqn:E; [|discriminate].
+  intros H. injection H as <-. split; [|reflexivity]. unfold ctx_g in Hc. apply andb_prop in Hc as [H1 H2].
+  unfold batch_g. cbn [bt_hdr bt_entries bt_ctl].
+  rewrite H1, forallb_rev, H2, (read_rec_gd T8 _ _ _ Hq H94 (fo_ctl _ F) E), (read_rec_kind _ _ _ E), (fo_mem _ F). reflexivity.
+Qed.
+
+Lemma lift_cur_s s o s' : sinv s -> (forall c, o = Some c -> ctx_g c = true) -> lift_cur s o = Some s' -> sinv s'.
+Proof.
+  intros I H. destruct o as [c|]; [|discriminate]. intros E. injection E as <-.
+  destruct I. constructor; cbn; auto.
+Qed.
+Lemma lift_icur_s s o s' : sinv s -> (forall c, o = Some c -> ctx_g c = true) -> lift_icur s o = Some s' -> sinv s'.
+Proof.
+  intros I H. destruct o as [c|]; [|discriminate]. intros E. injection E as <-.
+  destruct I. constructor; cbn; auto.
+Qed.
+
+Lemma dstep_sinv s s' : sinv s -> dstep T (Some s) l = Some s' -> sinv s'.
+Proof.
+  intros I. unfold dstep. destruct (negb (rune_count l =? 94)); [discriminate|]. cbv zeta.
+  destruct kinds as (KFH & KBH & KIBH & KED & KADVED & KIATED & Kstd & Kadv & Kiat & KBC & KABC & KFC & KAFC & M1 & M2 & M3 & M4).
+  destruct (rtype l =? T1)%N.
+  { unfold step1. destruct (d_hdr s); [discriminate|].
+    destruct (read_rec T "FileHeader" l) as [h|] eqn:E; [|discriminate].
+    intros H. injection H as <-. destruct I. constructor; cbn; auto. exact (read_rec_gd T1 _ _ _ Hq H94 KFH E). }
+  destruct (rtype l =? T5)%N.
+  { unfold step5. destruct (d_cur s) eqn:Ec; [discriminate|]. destruct (iat_line l).
+    - destruct (read_rec T "IATBatchHeader" l) as [h|] eqn:E; [|discriminate].
+      intros H. injection H as <-. destruct I. constructor; cbn; auto.
+      unfold ctx_g. cbn [fst snd forallb]. now rewrite (read_rec_gd T5 _ _ _ Hq H94 KIBH E).
+    - destruct (read_rec T "BatchHeader" l) as [h|] eqn:E; [|discriminate].
+      destruct (existsb (bytes_eqb (sec_of h)) newbatch_secs); [|discriminate].
+      intros H. injection H as <-. destruct I. constructor; cbn; auto.
+      unfold ctx_g. cbn [fst snd forallb]. now rewrite (read_rec_gd T5 _ _ _ Hq H94 KBH E). }
+  destruct (rtype l =? T6)%N.
+  { unfold step6. destruct (d_icur s) as [c|] eqn:Ei.
+    - apply lift_icur_s; [exact I|]. intros c' Hc'. apply (ctx_entry_g iat_fl c c' iat_fl_ok); [|exact Hc'].
+      pose proof (s_icur s I) as X. now rewrite Ei in X.
+    - destruct (d_cur s) as [c|] eqn:Ec; [|discriminate].
+      apply lift_cur_s; [exact I|]. intros c' Hc'. apply (ctx_entry_g _ c c' (cur_fl_ok (fst c))); [|exact Hc'].
+      pose proof (s_cur s I) as X. now rewrite Ec in X. }
+  destruct (rtype l =? T7)%N.
+  { assert (Hiat : forall s', step7_iat T s l = Some s' -> sinv s').
+    { intros s0. unfold step7_iat. destruct (d_icur s) as [c|] eqn:Ei; [|discriminate].
+      apply lift_icur_s; [exact I|]. intros c' Hc'. apply (ctx_addenda_g iat_fl c c' iat_fl_ok); [|exact Hc'].
+      pose proof (s_icur s I) as X. now rewrite Ei in X. }
+    unfold step7. destruct (d_cur s) as [c|] eqn:Ec; [|apply Hiat].
+    destruct (not_iatcor (fst c)); [|apply Hiat].
+    apply lift_cur_s; [exact I|]. intros c' Hc'. apply (ctx_addenda_g _ c c' (cur_fl_ok (fst c))); [|exact Hc'].
+    pose proof (s_cur s I) as X. now rewrite Ec in X. }
+  destruct (rtype l =? T8)%N.
+  { unfold step8. destruct (d_cur s) as [c|] eqn:Ec.
+    - destruct (ctx_close T (cur_fl (fst c)) c l) as [b|] eqn:E; [|discriminate].
+      pose proof (s_cur s I) as X. rewrite Ec in X. cbn [optb] in X.
+      apply (ctx_close_g _ c b (cur_fl_ok (fst c)) X) in E as [E1 _].
+      intros H. injection H as <-. destruct I. constructor; cbn; auto. now rewrite E1.
+    - destruct (d_icur s) as [[h [|e es]]|] eqn:Ei; try discriminate.
+      destruct (ctx_close T iat_fl (h, e :: es) l) as [b|] eqn:E; [|discriminate].
+      pose proof (s_icur s I) as X. rewrite Ei in X. cbn [optb] in X.
+      apply (ctx_close_g _ _ b iat_fl_ok X) in E as [E1 _].
+      intros H. injection H as <-. destruct I. constructor; cbn; auto. now rewrite E1. }
+  destruct (rtype l =? T9)%N; [|discriminate].
+  unfold step9. destruct (pad_line l); [intros H; injection H as <-; exact I|].
+  destruct (any_adv (d_std s)).
+  - destruct (d_actl s); [discriminate|].
+    destruct (read_rec T "ADVFileControl" l) as [c|] eqn:E; [|discriminate].
+    intros H. injection H as <-. destruct I. constructor; cbn; auto.
+    unfold fctl_g. now rewrite (read_rec_gd T9 _ _ _ Hq H94 KAFC E), (read_rec_kind _ _ _ E).
+  - destruct (d_ctl s); [discriminate|].
+    destruct (read_rec T "FileControl" l) as [c|] eqn:E; [|discriminate].
+    intros H. injection H as <-. destruct I. constructor; cbn; auto.
+    unfold fctl_g. now rewrite (read_rec_gd T9 _ _ _ Hq H94 KFC E), (read_rec_kind _ _ _ E).
+Qed.
+
+End Line.
+
+Lemma dstep_none ls : fold_left (dstep T) ls None = None.
+Proof. induction ls as [|l ls IH]; [reflexivity|exact IH]. Qed.
+
+Lemma dstep_94 s l s' : dstep T (Some s) l = Some s' -> rune_count l = 94.
+Proof. unfold dstep. destruct (rune_count l =? 94) eqn:E; [intros _; now apply Nat.eqb_eq|discriminate]. Qed.
+
+Lemma fold_sinv ls : Forall Q ls -> forall s s', sinv s -> fold_left (dstep T) ls (Some s) = Some s' -> sinv s'.
+Proof.
+  induction 1 as [|l ls Hl Hls IH]; intros s s' I H; [injection H as <-; exact I|]. cbn [fold_left] in H.
+  destruct (dstep T (Some s) l) as [s1|] eqn:E; [|now rewrite dstep_none in H].
+  apply (IH s1 s'); [|exact H]. exact (dstep_sinv l Hl (dstep_94 _ _ _ E) s s1 I E).
+Qed.
+
+(* every record of the tree the reader returns was parsed from a line of the input, by the layout the
+   writer uses for its place *)
+Theorem read_file_g ls f : Forall Q ls -> read_file T ls = Some f -> file_g f = true.
+Proof.
+  intros Hls. unfold read_file. destruct (fold_left (dstep T) ls (Some d_init)) as [s|] eqn:E; [|discriminate].
+  pose proof (fold_sinv ls Hls _ _ sinv_init E) as I. unfold d_finish.
+  destruct (d_hdr s) as [h|] eqn:Eh; [|discriminate]. destruct (d_cur s); [discriminate|].
+  destruct (d_icur s); [discriminate|].
+  destruct (if any_adv (d_std s) then d_actl s else d_ctl s) as [c|] eqn:Ec; [|discriminate].
+  intros H. injection H as <-.
+  assert (Hc : fctl_g c = true).
+  { destruct I as [_ _ _ _ _ I6 I7]. destruct (any_adv (d_std s)); [rewrite Ec in I7|rewrite Ec in I6]; assumption. }
+  destruct I as [I1 I2 I3 _ _ _ _]. rewrite Eh in I1. unfold file_g. cbn [fl_hdr fl_batches fl_iat fl_ctl optb] in *.
+  now rewrite I1, !forallb_rev, I2, I3, Hc.
+Qed.
+
+Lemma forallb_impl' {A} (p q : A -> bool) l : (forall x, p x = true -> q x = true) -> forallb p l = true -> forallb q l = true.
+Proof. intros H. rewrite !forallb_forall. auto. Qed.
+
+Lemma gd_shape t x : gd t x = true -> rec_is T t x = true.
+Proof. unfold gd. intros H. now apply andb_prop in H as [H _]. Qed.
+Lemma gd_G t x : gd t x = true -> G x = true.
+Proof. unfold gd. intros H. now apply andb_prop in H as [_ H]. Qed.
+
+Lemma file_g_shape f : file_g f = true -> shape_ok T f = true.
+Proof.
+  assert (He : forall e, entry_g e = true -> entry_shape T e = true).
+  { intros e H. unfold entry_g in H. apply andb_prop in H as [H1 H2]. unfold entry_shape.
+    rewrite (gd_shape _ _ H1). exact (forallb_impl' _ _ _ (gd_shape T7) H2). }
+  assert (Hb : forall b, batch_g b = true -> batch_shape T b = true).
+  { intros b H. unfold batch_g in H. apply andb_prop in H as [H H4]. apply andb_prop in H as [H H3]. apply andb_prop in H as [H1 H2].
+    unfold batch_shape. now rewrite (gd_shape _ _ H1), (forallb_impl' _ _ _ He H2), (gd_shape _ _ H3), H4. }
+  unfold file_g, fctl_g. intros H. apply andb_prop in H as [H H4]. apply andb_prop in H as [H H3]. apply andb_prop in H as [H1 H2].
+  apply andb_prop in H4 as [H4 H5]. unfold shape_ok.
+  now rewrite (gd_shape _ _ H1), (forallb_impl' _ _ _ Hb H2), (forallb_impl' _ _ _ Hb H3), (gd_shape _ _ H4), H5.
+Qed.
+
+Lemma file_g_all f : file_g f = true -> all_file G f = true.
+Proof.
+  assert (He : forall e, entry_g e = true -> all_entry G e = true).
+  { intros e H. unfold entry_g in H. apply andb_prop in H as [H1 H2]. unfold all_entry.
+    rewrite (gd_G _ _ H1). exact (forallb_impl' _ _ _ (gd_G T7) H2). }
+  assert (Hb : forall b, batch_g b = true -> all_batch G b = true).
+  { intros b H. unfold batch_g in H. apply andb_prop in H as [H _]. apply andb_prop in H as [H H3]. apply andb_prop in H as [H1 H2].
+    unfold all_batch. now rewrite (gd_G _ _ H1), (forallb_impl' _ _ _ He H2), (gd_G _ _ H3). }
+  unfold file_g, fctl_g. intros H. apply andb_prop in H as [H H4]. apply andb_prop in H as [H H3]. apply andb_prop in H as [H1 H2].
+  apply andb_prop in H4 as [H4 _]. unfold all_file.
+  now rewrite (gd_G _ _ H1), (forallb_impl' _ _ _ Hb H2), (forallb_impl' _ _ _ Hb H3), (gd_G _ _ H4).
+Qed.
+
+End Machine.
+
+(* ------------------------------------------------------------------ *)
+(* F. composition                                                       *)
+
+Definition lineb (l : bytes) : bool := (rune_count l =? 94) && wf_utf8 l.
+
+Lemma lineb_nines : lineb nines = true.
+Proof. vm_compute. reflexivity. Qed.
+
+Lemma forallb_repeat {A} (p : A -> bool) x k : p x = true -> forallb p (repeat x k) = true.
+Proof. intros H. induction k as [|k IH]; [reflexivity|]. cbn [repeat forallb]. now rewrite H, IH. Qed.
+
+Lemma rec_is_kind T t x y : r_kind x = r_kind y -> rec_is T t x = rec_is T t y.
+Proof. unfold rec_is. now intros ->. Qed.
+
+Lemma shape_ok_map T g f : (forall x, r_kind (g x) = r_kind x) -> shape_ok T (map_file g f) = shape_ok T f.
+Proof.
+  intros Hg.
+  assert (He : forall e, entry_shape T (map_entry g e) = entry_shape T e).
+  { intros e. unfold entry_shape, map_entry. cbn [en_rec en_addenda]. rewrite forallb_map'.
+    rewrite (rec_is_kind T T6 _ _ (Hg (en_rec e))). f_equal. apply forallb_ext'. intros a. apply rec_is_kind, Hg. }
+  assert (Hb : forall b, batch_shape T (map_batch g b) = batch_shape T b).
+  { intros b. unfold batch_shape, map_batch. cbn [bt_hdr bt_entries bt_ctl]. rewrite forallb_map', (forallb_ext' _ _ _ He).
+    now rewrite (rec_is_kind T T5 _ _ (Hg (bt_hdr b))), (rec_is_kind T T8 _ _ (Hg (bt_ctl b))), Hg. }
+  unfold shape_ok, map_file. cbn [fl_hdr fl_batches fl_iat fl_ctl]. rewrite !forallb_map', !(forallb_ext' _ _ _ Hb).
+  now rewrite (rec_is_kind T T1 _ _ (Hg (fl_hdr f))), (rec_is_kind T T9 _ _ (Hg (fl_ctl f))), Hg.
+Qed.
+
+Section Compose.
+Variable T : list layout.
+Variable RS : list (string * rules).
+Variable AT : tables.
+Hypothesis HT : forallb layout_ok T = true.
+Hypothesis HP : forallb (parse_fills RS) T = true.
+Hypothesis HK : reader_kinds_ok T = true.
+Variable clk : bytes.
+Hypothesis Hclk : wf_utf8 clk = true.
+Hypothesis Hclk4 : rune_count clk = 4.
+
+Definition wfQ (l : bytes) : Prop := wf_utf8 l = true.
+(* a parsed record that passes its rules is written (with the clock, if it is a file header without
+   creation time) as a line of 94 characters of valid UTF-8 *)
+Definition Gc (x : recordR) : bool := implb (rec_passb RS x) (lineb (render_rec T (stamp_rec clk x))).
+
+Lemma Gc_parsed k l x : wfQ l -> rune_count l = 94 -> read_rec T k l = Some x -> Gc x = true.
+Proof.
+  intros Hl H94. unfold read_rec. destruct (layout_of T k) as [L|] eqn:EL; [|discriminate].
+  intros H. injection H as <-. unfold layout_of in EL. pose proof (find_some _ _ EL) as [Hin Hname].
+  apply String.eqb_eq in Hname. fold (layout_of T k) in EL. subst k.
+  assert (Hok : layout_ok L = true) by (rewrite forallb_forall in HT; now apply HT).
+  assert (Hpf : parse_fills RS L = true) by (rewrite forallb_forall in HP; now apply HP).
+  unfold Gc, rec_passb, rules_for. cbn [r_kind r_val]. destruct (rec_validb _ _) eqn:Ev; [|reflexivity]. cbn [implb].
+  unfold stamp_rec, render_rec. cbn [r_kind r_val]. rewrite EL.
+  assert (Ev' : rec_validb (rules_in RS L) (overlay (parse L l) []) = true) by exact Ev.
+  destruct (parsed_line RS L l clk Hok Hpf Hl H94 Hclk Hclk4 Ev') as [H1 H2].
+  unfold lineb. now rewrite H1, H2.
+Qed.
+
+Theorem reader_lines ls f : Forall wfQ ls -> read_file_valid T RS AT ls = Some (f, false) ->
+  forallb lineb (write_file_padded T (stamp clk f)) = true /\ shape_ok T (stamp clk f) = true.
+Proof.
+  intros Hls Hr. pose proof (valid_reader_refines T RS AT ls f Hr) as Hread.
+  pose proof (valid_reader_sound T RS AT ls f Hr) as Hvalid.
+  pose proof (read_file_g T wfQ Gc Gc_parsed HK ls f Hls Hread) as Hg.
+  pose proof (file_g_all T Gc f Hg) as Hall. pose proof (file_g_shape T Gc f Hg) as Hshape.
+  split.
+  - unfold tree_validb, tree_okb in Hvalid. apply andb_prop in Hvalid as [Hvalid _]. apply andb_prop in Hvalid as [Hvalid _].
+    assert (Hline : all_file (fun x => lineb (render_rec T (stamp_rec clk x))) f = true).
+    { apply (all_file_impl2 (rec_passb RS) Gc); [|exact Hvalid|exact Hall].
+      intros x Hp Hx. unfold Gc in Hx. now rewrite Hp in Hx. }
+    unfold write_file_padded, physical_lines. rewrite forallb_app. apply andb_true_intro. split.
+    + apply (all_file_lines T lineb (stamp clk f)). unfold stamp. now rewrite all_file_map.
+    + apply forallb_repeat, lineb_nines.
+  - unfold stamp. rewrite shape_ok_map; [exact Hshape|reflexivity].
+Qed.
+
+(* C02_reader_domain: every byte string the default reader accepts (no batch left open) *)
+Theorem reader_domain text f : read_text_valid T RS AT text = Some (f, false) ->
+  let g := stamp clk f in
+  let out := write_file_padded T g in
+  Forall (fun l => rune_count l = 94 /\ wf_utf8 l = true) out
+  /\ length out mod 10 = 0
+  /\ (exists k, k < 10 /\ out = write_file T g ++ repeat nines k)
+  /\ grammar_ok out = true
+  /\ shape_ok T g = true.
+Proof.
+  unfold read_text_valid. destruct (norm_lines (read_lines text)) as [ls|] eqn:El; [|discriminate]. intros Hr. cbv zeta.
+  destruct (reader_lines ls f (read_lines_wf text ls El) Hr) as [Hlines Hshape].
+  split; [|split; [|split; [|split]]].
+  - apply Forall_forall. intros l Hin. rewrite forallb_forall in Hlines. specialize (Hlines l Hin). unfold lineb in Hlines.
+    apply andb_prop in Hlines as [H1 H2]. apply Nat.eqb_eq in H1. now split.
+  - apply physical_lines_blocked.
+  - destruct (physical_lines_tail (struct_of T (stamp clk f))) as (k & Hk & E). exists k. split; [exact Hk|].
+    unfold write_file_padded, write_file, record_lines. rewrite E. cbn [app]. f_equal. now rewrite <- app_assoc.
+  - apply grammar_written, shape_typed, Hshape.
+  - exact Hshape.
+Qed.
+
+End Compose.
